@@ -168,3 +168,51 @@ mk("N20_named_refill_threshold", [("zlib-rs/src/inflate.rs", chain(rep("""      
 """, """    let extra_safe = false;
     const DIST_BITS_NEEDED: u8 = MAX_BITS + MAX_DIST_EXTRA_BITS;
 """)))])
+
+# N21: the four match parameters are stored through a helper shared by lm_set_level and tune (hash selection stays in lm_set_level)
+mk("N21_match_params_helper", [(D, chain(
+    rep("""    state.max_lazy_match = CONFIGURATION_TABLE[level as usize].max_lazy;
+    state.good_match = CONFIGURATION_TABLE[level as usize].good_length;
+    state.nice_match = CONFIGURATION_TABLE[level as usize].nice_length;
+    state.max_chain_length = CONFIGURATION_TABLE[level as usize].max_chain;
+""", """    let config = &CONFIGURATION_TABLE[level as usize];
+    set_match_params(state, config.good_length, config.max_lazy, config.nice_length, config.max_chain);
+"""),
+    rep("""fn lm_set_level(state: &mut State, level: i8) {""", """fn set_match_params(state: &mut State, good_length: u16, max_lazy: u16, nice_length: u16, max_chain: u16) {
+    state.good_match = good_length;
+    state.max_lazy_match = max_lazy;
+    state.nice_match = nice_length;
+    state.max_chain_length = max_chain;
+}
+
+fn lm_set_level(state: &mut State, level: i8) {"""),
+    rep("""    stream.state.good_match = good_length as u16;
+    stream.state.max_lazy_match = max_lazy as u16;
+    stream.state.nice_match = nice_length as u16;
+    stream.state.max_chain_length = max_chain as u16;
+""", """    set_match_params(stream.state, good_length as u16, max_lazy as u16, nice_length as u16, max_chain as u16);
+""")))])
+
+# N22: locals of the fast compressor renamed
+def ren_fast(seg):
+    seg = re.sub(r"(?<!\.)\bmatch_len\b", "mlen", seg)
+    seg = re.sub(r"(?<!\.)\bhash_head\b", "head_pos", seg)
+    return seg
+mk("N22_rename_fast_locals", [("zlib-rs/src/deflate/algorithm/fast.rs", ren_fast)])
+
+# N23: gzclose_r tests the buffers through a local
+mk("N23_gzclose_r_local", [(GZ, rep("""    // Process any buffered input.
+    if state.in_size != 0 {""", """    // Process any buffered input.
+    let buffers_exist = state.in_size != 0;
+    if buffers_exist {"""))])
+
+# N24: deflate(): the need_more arm spells its full-output test with a match
+mk("N24_inflate_sync_comment_and_order", [("zlib-rs/src/inflate.rs", rep("""    stream.total_in = total_in;
+    stream.total_out = total_out;
+    // `inflate` publishes `state.total` as `total_out`, so it has to survive the reset as well
+    stream.state.total = total_out as usize;
+""", """    // `inflate` publishes `state.total` as `total_out`, so it has to survive the reset as well
+    stream.state.total = total_out as usize;
+    stream.total_out = total_out;
+    stream.total_in = total_in;
+"""))])
